@@ -122,6 +122,14 @@ def _div(a, b):
         return _mul(a, 1 / b)
     if _is_const(a) and a == 0:
         return Fraction(0)
+    if not _is_const(a):
+        # a numerator that is identically zero (e.g. v[2] - v[0] of a symmetric correlation) must not turn the
+        # quotient into a non-linear term: let z3's rewriter cancel it
+        sa = z3.simplify(a, som=True)
+        if z3.is_rational_value(sa) or z3.is_int_value(sa):
+            a = _q(sa)
+            if a == 0:
+                return Fraction(0)
     return _z(a) / _z(b)
 
 
@@ -339,7 +347,43 @@ class S:
     def rint(self):
         if self.is_const and self.is_real:
             return S(Fraction(round(self.re)))
-        raise Unsupported("rint of a symbolic value")
+        return (self + Fraction(1, 2)).floor_unique()
+
+    def floor_unique(self):
+        """floor of a term whose integer part is the same for every admissible input on this path
+        (checked concretisation: the solver must refute any other integer part)"""
+        if self.is_const and self.is_real:
+            return S(Fraction(math.floor(self.re)))
+        c = ctx()
+        t = z3.simplify(_z(self.re))
+        if z3.is_rational_value(t) or z3.is_int_value(t):
+            return S(Fraction(math.floor(_q(t))))
+        s = c.solver()
+        s.add(*c.path_condition())
+        if s.check() != z3.sat:
+            raise PathAbort("infeasible")
+        k = math.floor(_q(s.model().eval(t, model_completion=True)))
+        s.add(z3.Or(t < k, t >= k + 1))
+        t0 = time.perf_counter()
+        r = s.check()
+        c.solver_s += time.perf_counter() - t0
+        c.queries += 1
+        if r != z3.unsat:
+            raise Unsupported("floor/round/mod of a symbolic value whose integer part is not determined by the path")
+        return S(Fraction(k))
+
+    def __mod__(self, n):
+        n = to_S(n)
+        if not (n.is_const and n.is_real and n.re > 0):
+            raise Unsupported("modulo by a symbolic value")
+        k = (self / n).floor_unique()
+        return self - n * k
+
+    def __floordiv__(self, n):
+        n = to_S(n)
+        if not (n.is_const and n.is_real and n.re > 0):
+            raise Unsupported("floor division by a symbolic value")
+        return (self / n).floor_unique()
 
     def isnan(self):
         return False
@@ -818,7 +862,7 @@ class Ctx:
         return s
 
     def check(self, extra, logic=None, timeout_ms=20000):
-        s = self.solver(logic, timeout_ms)
+        s = self.solver(logic or getattr(self, "decide_logic", None), timeout_ms)
         s.add(*self.path_condition())
         s.add(*extra)
         t = time.perf_counter()
@@ -837,7 +881,40 @@ def _const_cos_sin(theta: float):
         return Fraction(c), Fraction(s)
     if _CTX:
         _CTX[-1].inexact = True
-    return _frac(math.cos(theta)), _frac(math.sin(theta))
+    # an inexact constant anyway: a 12-digit rational keeps the solver's arithmetic small (claims that depend on
+    # such constants are asked with a tolerance >= 1e-9)
+    return (Fraction(math.cos(theta)).limit_denominator(10**12), Fraction(math.sin(theta)).limit_denominator(10**12))
+
+
+def unique_argmax(values):
+    """index of the strict maximum of a list of real S, provided it is the same index for every admissible
+    input on this path (checked concretisation: one model proposes the index, a second query must refute
+    that any other entry reaches it); otherwise the caller falls back to forking comparisons"""
+    c = ctx()
+    vals = [to_S(v) for v in values]
+    if all(v.is_const for v in vals):
+        best = max(range(len(vals)), key=lambda i: vals[i].re)
+        return best
+    s = c.solver(getattr(c, "decide_logic", None), 30000)
+    s.add(*c.path_condition())
+    t0 = time.perf_counter()
+    r = s.check()
+    c.queries += 1
+    if r != z3.sat:
+        c.solver_s += time.perf_counter() - t0
+        raise PathAbort("infeasible") if r == z3.unsat else Unsupported("argmax: solver unknown")
+    m = s.model()
+    num = [_q(m.eval(_z(v.re), model_completion=True)) for v in vals]
+    best = max(range(len(vals)), key=lambda i: num[i])
+    others = [_z(v.re) >= _z(vals[best].re) for i, v in enumerate(vals) if i != best]
+    if others:
+        s.add(z3.Or(*others))
+        r = s.check()
+        c.queries += 1
+        c.solver_s += time.perf_counter() - t0
+        if r != z3.unsat:
+            return None
+    return best
 
 
 def _q(v):
